@@ -82,11 +82,11 @@ type scriptOutcome struct {
 }
 
 type c07Spec struct {
-	Seed  uint64
-	Plain bool // no lists / notes
-	N     int
-	Cold  bool   // biased to code with first-use initialisation (Markdown, formulas, templates, styles)
-	Tpl   uint64 // != 0: the document starts as a render of the template document built from this seed
+	Seed   uint64
+	Plain  bool // no lists / notes
+	N      int
+	Cold   bool   // biased to code with first-use initialisation (Markdown, formulas, templates, styles)
+	Tpl    uint64 // != 0: the document starts as a render of the template document built from this seed
 	shared *c07Template
 }
 
